@@ -79,7 +79,8 @@ def check_input(ctx0, r, inp):
 
 def _check_input(ctx, ctx0, r, inp):
     base = {"grammar": r.src, "costs": r.costs, "input": r.names(inp.toks), "input_tidxs": inp.toks,
-            "impl_errors": [{"lexeme": e[0], "state": e[1], "repairs": [" ".join(s) for s in e[3][:6]]} for e in inp.errors],
+            "impl_errors": [{"lexeme": e[0], "state": e[1], "repairs": [" ".join(s) for s in e[3][:6]]} for e in inp.errors[:12]],
+            "n_impl_errors": len(inp.errors),
             "impl_value": inp.value, "conflicts": r.conflicts}
     m = inp.model
     ok = True
@@ -88,6 +89,12 @@ def _check_input(ctx, ctx0, r, inp):
     ctx0.count("errors_per_input_%s" % (len(inp.errors) if len(inp.errors) < 4 else "4+"))
     if inp.ms >= 0.8 * r.budget:
         ctx0.count("budget_possibly_exhausted")
+    if m and m.get("mirror") == "overflow":
+        ctx0.count("skipped_model_cap")
+        return None
+    trunc = m.get("trunc") == "1"
+    if trunc:
+        ctx0.count("inputs_with_more_errors_than_model_cap(prefix compared)")
     if not m or m.get("mirror") in ("ifuel", "ofuel"):
         # the mirror ran out of fuel (reduce loop in a conflict-resolved table): nothing to compare
         ctx0.count("skipped_model_fuel")
@@ -126,6 +133,15 @@ def _check_input(ctx, ctx0, r, inp):
         d.update({"what": "replaying the implementation's first sequences panics in the mirror driver", "mirror_errors": merrs})
         ctx.violation(d, no_input=not bad)
         return False
+    if trunc:
+        # only the first errors were replayed by the mirror: compare that prefix, nothing else
+        if impl_errs[:len(merrs)] != merrs:
+            d = dict(base)
+            d.update({"what": "later errors differ from parsing with the first sequence of each error applied (prefix)",
+                      "mirror_errors(pos:state:repaired)": merrs[:40], "impl_errors(pos:state:repaired)": impl_errs[:40]})
+            ctx.violation(d)
+            ok = False
+        return ok
     if merrs != impl_errs:
         d = dict(base)
         d.update({"what": "later errors differ from parsing with the first sequence of each error applied",
@@ -238,4 +254,9 @@ def run(ctx):
                         "the bucketed search (dijkstra + merging) is not mirrored: validity is decided per reported sequence by the "
                         "extracted valid_repair, i.e. the property itself; completeness/minimality are C06's",
                         "inputs on which the mirror runs out of fuel (reduce loops of conflict-resolved tables) are skipped and counted",
-                        "token ids in range, no eof token from the lexer (ReplayLexer)"]
+                        "token ids in range, no eof token from the lexer (ReplayLexer)",
+                        "an input that falls into a known-finding class (KNOWN_* in this file: tables with resolved conflicts only) is "
+                        "reported through known_key and counted as a discharged obligation: the correspondence with the mirror "
+                        "holds there, the property does not; everything else alarms",
+                        "model caps: at most 1500 sequences per error are evaluated (strided sample, the rest counted), at most 300 "
+                        "errors per input are replayed by the mirror (prefix compared)"]
